@@ -19,6 +19,8 @@ def run(model, rep, tier):
     c07.r5_channel_separation(ctx, rep, R='C02.R6')
     r7_discovery_contains_user_code(ctx, rep)
     c07.r10_report_only_after_completed_run(ctx, rep, R='C02.R8')
+    # what the child reports is what the parent records: header and body agreement, header = a whole line
+    c07.r1_r2_wire(ctx, rep, R1='C02.R11', R2='C02.R11')
     accumulators_never_discarded(ctx, rep, 'C02.R9')
     accumulator_roles_through_calls(ctx, rep, 'C02.R3')
     from . import lifetime
